@@ -1,5 +1,5 @@
 (* C29: remaining attribute lemmas — full attribute list, common <-> rarity, charms. *)
-From OrdV Require Import Base.Prelude Generated Ord.Sat Proofs.Sat_proofs Proofs.Sat_count.
+From OrdV Require Import Base.Prelude Generated Ord.Sat Proofs.Sat_proofs Proofs.Sat_count Proofs.Sat_palindrome.
 Require Import ZifyBool ZifyN.
 Ltac Zify.zify_post_hook ::= Z.div_mod_to_equations.
 
@@ -97,15 +97,18 @@ Qed.
 
 Lemma sat_charms_spec : forall n, n < SAT_SUPPLY ->
   exists h o p, sat_height n = Ok h /\ sat_third n = Ok o /\ sat_palindrome n = Ok p /\
+    (p = true <-> decimal_digits_le n = rev (decimal_digits_le n)) /\
     sat_nineball n = (h =? 9) /\
     sat_coin n = (n mod 100000000 =? 0) /\
     sat_charms n = Ok (charms_spec (h =? 9) p (n mod 100000000 =? 0) (rarity_spec h o)).
 Proof.
   intros n Hn. destruct (sat_decompose n Hn) as (h & o & A & B & _ & Hs & E & _).
   destruct (sat_attributes n h o A B) as (_ & _ & _ & R).
-  destruct (sat_palindrome_ok n Hn) as [p Hp].
+  destruct (sat_palindrome_spec n Hn) as (p & Hp & Hpal).
   assert (NB : sat_nineball n = (h =? 9)) by (rewrite E; apply nineball_spec; exact Hs).
   assert (CO : sat_coin n = (n mod 100000000 =? 0)) by reflexivity.
-  exists h, o, p. repeat split; try assumption.
+  exists h, o, p.
+  split; [exact A|]. split; [exact B|]. split; [exact Hp|]. split; [exact Hpal|].
+  split; [exact NB|]. split; [exact CO|].
   unfold sat_charms. rewrite Hp, R. cbn [bind]. rewrite NB, CO. reflexivity.
 Qed.
